@@ -65,6 +65,13 @@ def make_array(name: str):
     elif pat == "inf":
         vals = np.arange(n) + b + 0.0
         vals[-1] = np.inf
+    elif pat == "nanneg":              # special values combined: NaN next to negative numbers
+        vals = np.arange(n) - 2.0
+        vals[-1] = np.nan
+    elif pat == "infneg":
+        vals = np.arange(n) - 2.0
+        vals[-1] = np.inf
+        vals[0] = -np.inf
     elif pat == "max":
         if dtype.kind in "iu":
             vals = np.full(n, np.iinfo(dtype).max, dtype=dtype)
@@ -95,6 +102,10 @@ def make_da(name: str):
         return xr.DataArray(base.astype("float32"), dims=["wavelength", "y", "x"], coords={"wavelength": wl})
     if name == "da_neg":
         return xr.DataArray(base - 5.0, dims=["wavelength", "y", "x"], coords={"wavelength": wl})
+    if name == "da_nanneg":
+        c = base - 5.0
+        c[0, 0, 0] = np.nan
+        return xr.DataArray(c, dims=["wavelength", "y", "x"], coords={"wavelength": wl})
     if name == "da_int":
         return xr.DataArray(base.astype("int64"), dims=["wavelength", "y", "x"], coords={"wavelength": wl})
     if name == "da_order":
@@ -113,8 +124,8 @@ def make_da(name: str):
     raise KeyError(name)
 
 
-DA_VALID = {"da_ok", "da_f32", "da_neg", "da_wl3"}
-DA_NAMES = ("da_ok", "da_f32", "da_neg", "da_int", "da_order", "da_nocoord", "da_shape", "da_2d", "da_wl3", "nd_3d")
+DA_VALID = {"da_ok", "da_f32", "da_neg", "da_nanneg", "da_wl3"}
+DA_NAMES = ("da_ok", "da_f32", "da_neg", "da_nanneg", "da_int", "da_order", "da_nocoord", "da_shape", "da_2d", "da_wl3", "nd_3d")
 
 
 def array_names(kind: str, tier: str):
@@ -128,6 +139,8 @@ def array_names(kind: str, tier: str):
             pats += ["neg"]
         if k == "f" and dt != "float16":
             pats += ["nan", "inf"]
+        if k == "f":
+            pats += ["nanneg", "infneg"]
         if dt in ("uint64", "float64", "uint8", "int64") and tier == "thorough":
             pats += ["max"]
         for p in pats:
@@ -552,7 +565,7 @@ def _argclass(kind, op, st_empty):
         dt, shp, pat = n.split(":")
         ok_dt = np.dtype(dt).str in ALLOWED[kind]
         return f"{'okdtype' if ok_dt else 'baddtype'}/{'okshape' if shp == 'ok' else 'badshape'}/" \
-               f"{'neg' if pat == 'neg' else 'val'}/{'on-empty' if st_empty else 'on-filled'}"
+               f"{'neg' if 'neg' in pat else 'val'}/{'on-empty' if st_empty else 'on-filled'}"
     return n
 
 
